@@ -40,6 +40,7 @@ for x in $x1 $x2; do
     asan) CC=clang; CFLAGS="-O1 -g -std=gnu99 -fsanitize=address,undefined -fno-sanitize-recover=all -fno-omit-frame-pointer"; LDF="-fsanitize=address,undefined";;
     tsan) CC=gcc; CFLAGS="-O1 -g -std=gnu99 -fsanitize=thread"; LDF="-fsanitize=thread";;
     cap)  EXTRA="-DM4RI_VERIF_MMC_NBLOCKS=3 -DM4RI_VERIF_MZD_CACHE_MAX=2";;
+    cov)  CFLAGS="-O0 -g -std=gnu99 --coverage"; LDF="--coverage";;      # line coverage of the library under the drivers (bin/linecov.sh)
   esac
 done
 [ $OMP = 1 ] && { CFLAGS="$CFLAGS -fopenmp"; LDF="$LDF -fopenmp"; }
